@@ -595,7 +595,7 @@ Proof.
   pose proof (rule_general_top s cx _ ps _ _ S1) as S2.
   assert (LS : length s = length (unparse_items items) + length tr) by (unfold s, unparse; apply app_length).
   unfold parse_top. fold s ps.
-  rewrite (run_mono s false cx _ (parse_fuel s) _ _ S2 ltac:(discriminate)) by (unfold parse_fuel; lia).
+  rewrite (run_mono s false cx _ (parse_fuel s cx) _ _ S2 ltac:(discriminate)) by (pose proof (parse_fuel_ge s cx); lia).
   unfold doc_result, tree_of. cbn [parse_content d_items d_trail fst snd]. fold ps. fold A.
   assert (PA : snd A = pe) by (unfold A; rewrite absorb_pos; reflexivity). rewrite PA.
   fold s. rewrite LS. reflexivity.
